@@ -51,7 +51,91 @@ def entries(tier):
   return es
 
 
+def async_part(chk):
+  """AsyncIteratorQueue: the same protocol on an event loop (IterQueue.tla's producer loop: an enqueuer looks at
+  enqueue_done before every read of its source).  One event loop, endless sources, puts and gets on executor threads;
+  the producers must have returned within 3 s of the stop / failure, and the consumer must see the failure."""
+  import asyncio
+  from ml_metrics._src.utils import iter_utils
+
+  class Src:
+    """Endless (or finite / failing) async source that counts its reads."""
+
+    def __init__(self, n=None, fail_at=0):
+      self.n, self.fail_at, self.reads = n, fail_at, 0
+
+    def __aiter__(self):
+      return self
+
+    async def __anext__(self):
+      self.reads += 1
+      await asyncio.sleep(0)
+      if self.fail_at and self.reads == self.fail_at:
+        raise RuntimeError('async producer fails')
+      if self.n is not None and self.reads > self.n:
+        raise StopAsyncIteration
+      return self.reads
+
+  async def scenario(kind, cap, turns_before):
+    q = iter_utils.AsyncIteratorQueue(cap)
+    srcs = [Src()] if kind != 'other-fails' else [Src(), Src(fail_at=2)]
+    tasks = [asyncio.ensure_future(q.async_enqueue_from_iterator(s)) for s in srcs]
+    got, seen_exc = [], None
+
+    async def consume():
+      nonlocal seen_exc
+      try:
+        while True:
+          got.append(await q.async_get())
+      except StopAsyncIteration:
+        pass
+      except Exception as e:  # pylint: disable=broad-exception-caught
+        seen_exc = e
+
+    cons = asyncio.ensure_future(consume()) if kind != 'stop-no-consumer' else None
+    for _ in range(turns_before):
+      await asyncio.sleep(0)
+    if kind in ('stop', 'stop-no-consumer'):
+      q.maybe_stop()
+    elif kind == 'stop-exc':
+      q.maybe_stop(ValueError('stop with an error'))
+    reads_at_stop = [s.reads for s in srcs]
+    # puts and gets run on executor threads: give them real time (up to 3 s) to wind down
+    for _ in range(300):
+      if all(t.done() for t in tasks) and (cons is None or cons.done()):
+        break
+      await asyncio.sleep(0.01)
+    state = dict(producers_done=[t.done() for t in tasks], consumer_done=cons.done() if cons else True,
+                 reads_after=[s.reads - r for s, r in zip(srcs, reads_at_stop)], seen_exc=repr(seen_exc))
+    for t in tasks + ([cons] if cons else []):
+      t.cancel()
+    await asyncio.gather(*tasks, *([cons] if cons else []), return_exceptions=True)
+    return state
+
+  for kind in ('stop', 'stop-exc', 'stop-no-consumer', 'other-fails'):
+    for cap in (0, 1, 2):
+      for turns in (0, 3, 12):
+        try:
+          st = asyncio.run(asyncio.wait_for(scenario(kind, cap, turns), 20))
+        except Exception as e:  # pylint: disable=broad-exception-caught
+          chk.violation(f'async:{kind}:harness-error:{type(e).__name__}', repr(e), dict(kind='async-queue', scenario=kind, cap=cap, turns=turns))
+          continue
+        chk.replayed()
+        cfg = f'AsyncIteratorQueue({cap}), {kind}, after {turns} loop turns'
+        ctx = dict(kind='async-queue', scenario=kind, cap=cap, turns_before=turns, state=st)
+        if kind == 'other-fails' and turns == 0:
+          pass
+        if not all(st['producers_done']):
+          chk.violation(f'async:producer-keeps-running:{kind}', f'[{cfg}] 3 s later a producer task has not returned; it read its source '
+                        f'{st["reads_after"]} more times', ctx)
+        elif not st['consumer_done']:
+          chk.violation(f'async:consumer-blocked:{kind}', f'[{cfg}] the consumer is still waiting', ctx)
+        elif kind in ('stop-exc', 'other-fails') and 'Error' not in st['seen_exc']:
+          chk.violation(f'async:failure-not-observed:{kind}', f'[{cfg}] consumer ended with {st["seen_exc"]}', ctx)
+
+
 def body(chk):
+  async_part(chk)
   qprops.run(chk, entries(chk.tier),
              negative=[('2x0 fail cap1', P(prods={'p1': (1, 1), 'p2': (2, 0)}, cons={}, cap=1), 'deadlock'),
                        ('2x0 stop cap1', P(prods={'p1': (2, 0), 'p2': (2, 0)}, cons={}, cap=1, stoppers={'s1': False}),
